@@ -4,5 +4,5 @@ CONSTANTS
   M = 40
   Delta = 10
   K = 16
-INVARIANTS InvWellFormed InvHFinished InvHNotEarlyInt InvHInterruptedIfBlocked InvHVerdictBlocked InvHVerdictEarly InvHVerdictBoundary InvHNoChildLeft InvHNotEarlyTimeout InvSIntOnTime InvSKillOnTime InvSKillNotBeforeGrace InvSDoneByDeadline InvSEarlyUndelayed InvSLateKillNotBeforeGrace InvSLateKillOnTime
+INVARIANTS InvWellFormed InvHFinished InvHNotEarlyInt InvHInterruptedIfBlocked InvHVerdictBlocked InvHVerdictEarly InvHVerdictBoundary InvHNoChildLeft InvHNotEarlyTimeout InvSIntOnTime InvSKillOnTime InvSKillNotBeforeGrace InvSDoneByDeadline InvSEarlyUndelayed InvSLateKillNotBeforeGrace InvSLateKillOnTime InvHLateKillNotBeforeGrace
 CHECK_DEADLOCK FALSE
